@@ -21,7 +21,6 @@ from fractions import Fraction
 from pywbem import (CIMInstanceName, CIMClassName, CIMInstance, CIMClass, CIMProperty, CIMMethod,
                     CIMParameter, CIMQualifier, CIMQualifierDeclaration, CIMDateTime, Char16,
                     MinutesFromUTC)
-from pywbem._cim_types import CIMInt, CIMFloat
 from pywbem._nocasedict import NocaseDict
 from pywbem._vendor.nocasedict import NocaseDict as VendorNocaseDict
 
